@@ -40,7 +40,7 @@ table = "\n".join(rows)
 p = os.path.join(ROOT, "DESIGN.md")
 s = open(p).read()
 if "<!--SEEDTABLE-->" in s:
-    s = re.sub(r"<!--SEEDTABLE-->.*?<!--/SEEDTABLE-->", "<!--SEEDTABLE-->\n" + table + "\n<!--/SEEDTABLE-->", s, flags=re.S)
+    s = re.sub(r"<!--SEEDTABLE-->.*?<!--/SEEDTABLE-->", lambda m: "<!--SEEDTABLE-->\n" + table + "\n<!--/SEEDTABLE-->", s, flags=re.S)
 else:
     s = s.replace("SEEDTABLE\n", "<!--SEEDTABLE-->\n" + table + "\n<!--/SEEDTABLE-->\n", 1)
 open(p, "w").write(s)
